@@ -114,7 +114,7 @@ type Loop struct {
 	Header *ssa.BasicBlock
 	Blocks map[*ssa.BasicBlock]bool
 	// Exits are the edges leaving the loop.
-	Exits [][2]*ssa.BasicBlock
+	Exits   [][2]*ssa.BasicBlock
 	Latches []*ssa.BasicBlock
 }
 
